@@ -1,7 +1,9 @@
 """C03 — Thermo iCap CSV import is exact and identical for rows and columns exports:
 pewlib.io.thermo.icap_csv_{rows,columns}_read_data / _read_params / icap_csv_sample_format / load
-against PewModel/Thermo.lean (mechanisms `readRows`, `readCols`, `readParams`, `sniff`, `load`;
-specification `specImg`, `specScantime`).  Both layouts are written from one acquisition.
+against PewModel/Thermo.lean (mechanisms `readRows`, `readCols`, `readParams`, `sniff`, `load`, `gfSplit`;
+specification `specImg`, `specParams`/`specScantime`, `otherFile`/`specSniffOther`).  Both layouts are written from one
+acquisition; every specification value comes from the driver (computed from the acquisition, never from a reader).
+Texts outside the export format (kind "text") are compared with the model only.
 """
 import logging
 import math
@@ -69,10 +71,30 @@ def params_driver(j):
     return {"times": j["times"], "scantime": st}, und
 
 
-def spec_times(impl_params, truth):
-    if isinstance(impl_params, dict) and "times" in impl_params:
-        return impl_params["times"]
-    return truth
+def spec_params(rep):
+    """the specification of the parameters as the driver computed it from the acquisition: times of the first element
+    and the rounded mean interval of the Time channel"""
+    st, und = pval(rep["spec_params"]["scantime"])
+    return {"times": rep["spec_params"]["times"], "scantime": st}, und
+
+
+def with_eol(table):
+    """the Lean tables keep the line terminator in the last field of every line"""
+    return [r[:-1] + [r[-1] + "\n"] for r in table]
+
+
+def soft_cmp(a, b) -> str:
+    """'same' / 'both-raise' / 'differ' (both import, different results) / 'import-differs' (one side raises or cannot read
+    the parameters where the other can)"""
+    def unread(v):
+        return v == ERR or v == {}
+
+    if unread(a) or unread(b):
+        return "both-raise" if a == b else "import-differs"
+    if isinstance(a, dict) and isinstance(b, dict) and set(a) == {"image", "params"} == set(b):
+        vs = {soft_cmp(a["image"], b["image"]), soft_cmp(a["params"], b["params"])}
+        return "differ" if "differ" in vs else "import-differs" if "import-differs" in vs else "same"
+    return "same" if core.canon(a) == core.canon(b) else "differ"
 
 
 def call(f, *a, **k):
@@ -89,21 +111,39 @@ class C03(Prop):
     rule = ("one random acquisition (1..6 samples, 2..11 scans, 1..4 elements with spaces/brackets/32-character labels, any "
             "subset of the channels X/Y/Time/Analog/Counter, numbers with signs and exponents) written in both layouts with "
             "',' or ';' and '.' or ',' decimals, BOM on/off, CRLF/LF; explicit readers for every channel, params, sniffing, "
-            "and load (use_analog on/off); 14% of the cases: exports whose first 13..72 lines carry no decimal mark (integral values "
+            "and load (use_analog on/off), every one compared with the specification the driver computes from the acquisition "
+            "(pixels, element order, times of the first element, rounded mean interval, layout name); 14% of the cases: exports "
+            "whose first 13..72 lines carry no decimal mark (integral values "
             "written as 0/12/-3/1e5 for the first records of the columns layout and/or the first samples of the rows layout), "
-            "fractional values only later; plus non-export text files for the sniffer; non-trivial = every export case")
+            "fractional values only later; 10%: non-export text files for the sniffer (specification: the constant 'unknown' on "
+            "every text whose first and third line do not mention MainRuns); 18%: texts outside the export format (kind 'text': a "
+            "small export edited line by line — blank/comment lines, rows cut short or too long, missing sample rows or header "
+            "lines, missing trailing delimiters or final terminator, '#' and blanks in names, non-integer/negative/missing scan "
+            "numbers, ragged MainRuns lines, single selected lines, names with one line), where the property is silent and pewlib "
+            "is compared with the model only; non-trivial = every export and every text case")
     trusted = [
-        "float()/int()/str() and np.genfromtxt field conversion: a field parses to float(token) (NaN when that fails); "
+        "float()/int()/str() and the field conversion of np.genfromtxt: a field parses to float(token) (NaN when that fails, "
+        "loose mode), a scan field of the columns layout to int(token) (-1 when that fails); "
         "fixed-width unicode storage truncates; np.unique(return_index)+argsort = order of first appearance; "
-        "boolean-mask and usecols selection = filtering the zipped columns; structured assignment broadcasts a single column",
+        "boolean-mask and usecols selection = filtering the zipped columns; structured assignment broadcasts a single column; "
+        "np.genfromtxt line handling as modelled by `gfSplit` (comment cut at '#', strip(' \\r\\n'), empty lines skipped, "
+        "equal field counts without usecols, a row valid with usecols once it reaches the last selected column)",
         "the utf-8-sig codec removes the BOM; universal newlines; both layouts start with the delimiter",
-        "the Python table writer (harness/gen_thermo.py) is compared field by field with the Lean renderers in every case",
+        "the files written by harness/gen_thermo.py are compared in every case, field by field and (read back through Python's "
+        "text layer) line by line, with the tables and the text rendered by the Lean model; the model's readers run on that "
+        "text split again (lines under 20000 characters) or on the table (longer lines)",
         "scantime: exact rational mean of differences; a value within 1e-6 of a rounding tie at the 4th decimal is not compared",
     ]
     assumptions = [
         "labels and sample names: non-empty, at most 32 characters, no delimiter, no ',' , no '#', not containing a channel "
         "name or 'MainRuns'; every line ends with the delimiter (as Qtegra writes it)",
         "a channel that was not exported: the readers raise (compared with the model only, the property is silent)",
+        "texts outside the export format (kind 'text'): compared with the model only. strict (rows layout, edits that only "
+        "exercise str.split of the header rows and np.genfromtxt(usecols) on the sample rows; unedited columns exports): "
+        "every reader, the sniffer and load equal the model, exceptions included. soft (everything else): a correspondence "
+        "failure only when pewlib and the model both import and differ; a difference in whether they import is counted in the "
+        "evidence (feature text:soft:import-differs) and is not a violation, because a rewrite of the readers that keeps every "
+        "export importing exactly may change it",
     ]
 
     def generate(self, rng, tier):
@@ -112,6 +152,8 @@ class C03(Prop):
             return gen_thermo.generate_other(rng)
         if r < 0.24:    # integral values written without a decimal mark for the whole head of the file
             return gen_thermo.generate_late(rng, tier)
+        if r < 0.42:    # texts outside the export format, compared with the model only
+            return gen_thermo.generate_text(rng, tier)
         return gen_thermo.generate(rng, tier)
 
     def targeted(self, tier):
@@ -140,6 +182,10 @@ class C03(Prop):
                         rng = random.Random(f"C03-late-{combo}-{target}-{lead}-{kind}-{co}")
                         yield gen_thermo.generate_late(rng, tier, target=target, lead=lead, combo=combo, kind=kind,
                                                        counter_only=co, use_analog=False if co else None)
+        # every edit of the text stream once per layout (the off-domain branches of the readers)
+        for lay, eds in (("rows", gen_thermo.TEXT_EDITS_ROWS + gen_thermo.TEXT_EDITS_ROWS_SOFT), ("cols", gen_thermo.TEXT_EDITS_COLS)):
+            for e in eds:
+                yield gen_thermo.generate_text(random.Random(f"C03-text-{lay}-{e}"), tier, layout=lay, edits=[e])
         for lines in ([], [""], ["A,B"], ["1,2", "3,4"], ["x", "MainRuns,0,A,Counter,1,"], ["a", "b", "c"],
                       ["a", "MainRuns", "c", "MainRuns"]):
             for final in (True, False):
@@ -156,10 +202,18 @@ class C03(Prop):
             p.write_bytes((b"\xef\xbb\xbf" if case["bom"] else b"") + body.encode("utf-8"))
             r = call(thermo.icap_csv_sample_format, p)
             impl = {"raises": type(r).__name__} if isinstance(r, Exception) else str(r)
-            model = ctx.driver.call("c03.sniff", lines=case["lines"])["model"]
+            rep = ctx.driver.call("c03.sniff", lines=case["lines"])
             nl = len(case["lines"])
-            return outcome(impl, model, model, features=["other-file", "short-file" if nl < 3 else "long-file",
-                                                         "bom" if case["bom"] else "no-bom"])
+            feats = ["other-file", "short-file" if nl < 3 else "long-file", "bom" if case["bom"] else "no-bom"]
+            if rep["other"]:
+                # "anything else": neither the first nor the third line mentions MainRuns; the specification is the constant
+                # the driver returns for such a file ('unknown'), not the model's output
+                return outcome(impl, rep["model"], rep["spec"], features=feats)
+            # a text that mentions MainRuns where an export does, without being one (only a shrinker or a corpus file gets
+            # here): the property does not say what it is called
+            return outcome(impl, rep["model"], impl, hyp=False, features=feats + ["mentions-MainRuns"])
+        if case["kind"] == "text":
+            return self.evaluate_text(case, ctx, d)
         a = case["acq"]
         delim, comma = case["delimiter"], case["decimal"] == ","
         trows, tcols = gen_thermo.table_rows(a), gen_thermo.table_cols(a)
@@ -174,16 +228,23 @@ class C03(Prop):
         missing = [c for c in ("Time", "Analog", "Counter") if c not in a["channels"]]
         rep = ctx.driver.call("c03.acq", samples=a["samples"], nscans=a["nscans"], elements=a["elements"], channels=a["channels"],
                               tokens=a["tokens"], comma=comma, delimiter=delim, parse=[[k, v] for k, v in table.items()],
-                              missing=missing)
-        if rep["table_rows"] != trows or rep["table_cols"] != tcols:
+                              missing=missing, explicit_delimiter=bool(case["explicit_delimiter"]))
+        if rep["table_rows"] != with_eol(trows) or rep["table_cols"] != with_eol(tcols):
             raise InternalError("Python table writer and Lean renderer disagree")
+        # the files as Python's text layer hands them to pewlib (codec, universal newlines) are, line by line, the text
+        # the Lean model rendered (and split again for its readers)
+        for path, key in ((prow, "text_rows"), (pcol, "text_cols")):
+            with path.open("r", encoding="utf-8-sig") as fp:
+                if list(fp) != rep[key]:
+                    raise InternalError("the file written and the text rendered by the Lean model disagree")
         dl = delim if case["explicit_delimiter"] else None
         impl, model, spec = {}, {}, {}
         und = False
         n, m = len(a["samples"]), a["nscans"]
         feats = {f"n{n}" if n <= 2 else "n>=3", f"m{m}" if m <= 2 else "m>=3", f"k{len(a['elements'])}" if len(a["elements"]) <= 2 else "k>=3",
                  f"delim{delim}dec{case['decimal']}", "bom" if case["bom"] else "no-bom", "crlf" if case["eol"] == "\r\n" else "lf",
-                 "explicit-delimiter" if dl else "auto-delimiter", "channels:" + "+".join(c[0] for c in a["channels"]), case["kind"]}
+                 "explicit-delimiter" if dl else "auto-delimiter", "channels:" + "+".join(c[0] for c in a["channels"]), case["kind"],
+                 "model-splits-the-text" if rep["resplit"] else "model-reads-the-table"}
         # lines of each layout before the first value written with the decimal mark (when there is one at all)
         for lay, t, hdr, lab in (("rows", trows, 4, 2), ("cols", tcols, 2, 4)):
             first = next((j for j, r in enumerate(t) if j >= hdr and any(case["decimal"] in f for f in r[lab:])), None)
@@ -216,9 +277,7 @@ class C03(Prop):
                         impl[key] = dict(ERR) if isinstance(r, Exception) else params_impl(r)
                         model[key], u1 = params_driver(rep["params_" + lay])
                         if "Time" in bychan:
-                            st, u2 = pval(rep["spec_scantime"])
-                            # the property speaks of the scan time only: `times` is judged against the model, not the spec
-                            spec[key] = {"times": spec_times(impl[key], bychan["Time"]["spec"]["planes"][0]), "scantime": st}
+                            spec[key], u2 = spec_params(rep)
                             und = und or u1 or u2
                         else:
                             spec[key] = impl[key]
@@ -226,7 +285,9 @@ class C03(Prop):
                         key = f"{lay}.format"
                         impl[key] = dict(ERR) if isinstance(r, Exception) else str(r)
                         model[key] = rep["sniff_" + lay]
-                        spec[key] = {"rows": "rows", "cols": "columns"}[lay]
+                        spec[key] = rep["spec_sniff_" + lay]
+                        if rep["other_" + lay]:
+                            raise InternalError("an export counted as 'anything else'")
                 else:
                     ua = case["use_analog"]
                     ch = "Analog" if ua else "Counter"
@@ -247,9 +308,7 @@ class C03(Prop):
                         if ch in bychan:
                             sp = {"image": img_driver(bychan[ch]["spec"]), "params": {}}
                             if "Time" in bychan:
-                                st, u2 = pval(rep["spec_scantime"])
-                                ip = impl[key].get("params") if isinstance(impl[key], dict) else None
-                                sp["params"] = {"times": spec_times(ip, bychan["Time"]["spec"]["planes"][0]), "scantime": st}
+                                sp["params"], u2 = spec_params(rep)
                                 und = und or u2
                             spec[key] = sp
                         else:
@@ -267,11 +326,106 @@ class C03(Prop):
                                 pd["scantime"] = "~"
         return outcome(impl, model, spec, features=feats)
 
+    def evaluate_text(self, case, ctx, d):
+        """a text outside the export format: every reader, the sniffer and load on the file, compared with the model
+        alone (the property is silent); the model gets the lines exactly as Python's text layer hands them to pewlib"""
+        from pewlib.io import thermo
+
+        p = d / "text.csv"
+        eol = case["eol"]
+        body = eol.join(case["lines"]) + (eol if case["final_eol"] and case["lines"] else "")
+        p.write_bytes((b"\xef\xbb\xbf" if case["bom"] else b"") + body.encode("utf-8"))
+        with p.open("r", encoding="utf-8-sig") as fp:   # codec and universal newlines: Python's, not pewlib's
+            lines = list(fp)
+        dl = case["delimiter"] if case["explicit_delimiter"] else None
+        comma = case["decimal"] == "," and case["delimiter"] != ","
+        fields = ctx.driver.call("c03.fields", lines=lines, delimiter=dl)["fields"]
+        parse, ints = [], []
+        for f in fields:
+            v = gen_thermo.value_of(f)
+            if math.isinf(v):
+                raise InternalError("an infinite value in a text case")
+            parse.append([f, core.orat(v)])
+            try:
+                ints.append([f, int(f)])
+            except ValueError:
+                ints.append([f, None])
+        rep = ctx.driver.call("c03.text", lines=lines, delimiter=dl, comma=comma, parse=parse, ints=ints)
+        impl, model = {}, {}
+        und = False
+        big = 0.0
+        with warnings.catch_warnings():
+            warnings.simplefilter("ignore")
+            logging.disable(logging.WARNING)
+            try:
+                for lay, rd, rp in (("rows", thermo.icap_csv_rows_read_data, thermo.icap_csv_rows_read_params),
+                                    ("cols", thermo.icap_csv_columns_read_data, thermo.icap_csv_columns_read_params)):
+                    for ua, ch in ((False, "Counter"), (True, "Analog")):
+                        r = call(rd, p, delimiter=dl, comma_decimal=comma, use_analog=ua)
+                        key = f"{lay}.data.{ch}"
+                        impl[key] = dict(ERR) if isinstance(r, Exception) else img_impl(r)
+                        model[key] = img_driver(rep[key])
+                    r = call(rp, p, delimiter=dl, comma_decimal=comma)
+                    key = f"{lay}.params"
+                    impl[key] = dict(ERR) if isinstance(r, Exception) else params_impl(r)
+                    model[key], u1 = params_driver(rep[key])
+                    und = und or u1
+                r = call(thermo.icap_csv_sample_format, p)
+                impl["format"] = dict(ERR) if isinstance(r, Exception) else str(r)
+                model["format"] = rep["format"]
+                for ua, ch in ((False, "Counter"), (True, "Analog")):
+                    r = call(thermo.load, p, use_analog=ua, full=True)
+                    key = f"load.{ch}"
+                    impl[key] = dict(ERR) if isinstance(r, Exception) else {"image": img_impl(r[0]), "params": params_impl(r[1])}
+                    mj = rep[key]
+                    if "raises" in mj:
+                        model[key] = dict(ERR)
+                    else:
+                        pm, u1 = params_driver(mj["params"])
+                        model[key] = {"image": img_driver(mj["image"]), "params": pm}
+                        und = und or u1
+            finally:
+                logging.disable(logging.NOTSET)
+        # scan time: pewlib rounds a float mean, the model an exact one; not compared close to a rounding tie or when the
+        # times are large enough for the float mean to move by more than the margin
+        for v in model.values():
+            for pd in ((v, v.get("params")) if isinstance(v, dict) else ()):
+                if isinstance(pd, dict) and "times" in pd:
+                    for row in pd["times"]:
+                        for q in row:
+                            if q is not None:
+                                big = max(big, abs(float(core.unrat(q))))
+        if und or big > 1e4:
+            for r in (impl, model):
+                for v in r.values():
+                    if isinstance(v, dict):
+                        for pd in (v, v.get("params") if isinstance(v.get("params"), dict) else None):
+                            if pd and "scantime" in pd:
+                                pd["scantime"] = "~"
+        edits = case["edits"]
+        feats = {"text", f"text:{case['layout']}", "explicit-delimiter" if dl else "auto-delimiter"} | {f"text:{case['layout']}:{e}" for e in edits}
+        reads = [k for k, v in impl.items() if k != "format" and soft_cmp(v, v) == "same"]
+        feats.add("text:something-imports" if reads else "text:nothing-imports")
+        if gen_thermo.is_strict(case):
+            feats.add("text:strict")
+            return outcome(impl, model, impl, hyp=False, features=feats)
+        # soft: a correspondence failure only where both sides import and differ (see harness/gen_thermo.py)
+        verdicts = {k: soft_cmp(impl[k], model[k]) for k in impl}
+        if any(v == "differ" for v in verdicts.values()):
+            feats.add("text:soft")
+            return outcome(impl, model, impl, hyp=False, features=feats)
+        skipped = sorted(k for k, v in verdicts.items() if v == "import-differs")
+        feats.add("text:soft:import-differs" if skipped else "text:soft:equal")
+        return outcome(impl, impl, impl, hyp=False, features=feats,
+                       note=("pewlib and the model differ in whether they import: " + ", ".join(skipped)) if skipped else "")
+
     def shrink(self, case):
         if case["kind"] == "sniff_other":
             ls = case["lines"]
             for i in range(len(ls)):
                 yield {**case, "lines": ls[:i] + ls[i + 1:]}
+            return
+        if case["kind"] == "text":      # compared with the model only: never shrunk towards another text
             return
         a = case["acq"]
         n, m, k, C = len(a["samples"]), a["nscans"], len(a["elements"]), len(a["channels"])
